@@ -108,7 +108,7 @@ class Witness(dict):
 
 CONST_DEFAULTS = {"g": 9.81, "Pconv": 1e5, "p_n": 1.01325, "T_n": 273.15, "pi": 3.141592653589793,
                   "K_slope": -0.0022, "K_offset": 1.0, "molar_mass": 16.6, "lhv": 10.0, "hhv": 11.0,
-                  "rho": 998.0, "eta": 1.0e-3, "cp": 4182.0}
+                  "rho": 998.0, "eta": 1.0e-3, "cp": 4182.0, "amb_pre": 268.15}
 
 
 def witness_funcs():
